@@ -21,7 +21,7 @@ CONSTANTS
   Win = 3
   MaxPert = 1
   RtspCls = {"single", "agg", "fu"}
-  PsPk = {"p1", "p2", "p3", "p4", "p5", "p6", "p10", "p11", "p12", "p13", "p14"}
+  PsPk = {"p1", "p2", "p3", "p4", "p5", "p6", "p10", "p11", "p12", "p13", "p14", "p15", "p16"}
   CustFmt = {"annexb", "annexb3", "avcc"}
 INVARIANTS DesignConforms
 ACTION_CONSTRAINT EmitS
